@@ -159,7 +159,7 @@ class ChefRoundTrip(Task):
             return
         pf = inp["pf"]
         back, newoff, nmins, nmaxs, names = out.value
-        view = View(pf, list(range(len(names))), pf.L if self.cfg["limit"] is None else self.cfg["limit"], newoff, names=names)
+        view = View(pf, [0] * len(names), pf.L if self.cfg["limit"] is None else self.cfg["limit"], newoff, names=names)    # mins/maxs set below
         view.mins, view.maxs = nmins, nmaxs
         check_reader_view(ex, back, view, None, True, False, label="roundtrip", grids=False)
 
